@@ -3,6 +3,7 @@ package gen
 import (
 	"fmt"
 	"reflect"
+	"time"
 
 	"github.com/enbility/spine-go/model"
 	"pgregory.net/rapid"
@@ -133,7 +134,7 @@ func stringFor(t *rapid.T, typ reflect.Type, path string) string {
 func fillTimePeriod(t *rapid.T, v reflect.Value, o Opt, path string) {
 	hi := 2
 	if o.RelativePeriods {
-		hi = 3
+		hi = 4
 	}
 	tp := model.TimePeriodType{}
 	switch rapid.IntRange(0, hi).Draw(t, path+"/period") {
@@ -145,6 +146,11 @@ func fillTimePeriod(t *rapid.T, v reflect.Value, o Opt, path string) {
 		tp.EndTime = model.NewAbsoluteOrRelativeTimeType(rapid.SampledFrom(append(append([]string{}, datetimes...), durations...)).Draw(t, path+".end"))
 	case 3:
 		tp.EndTime = model.NewAbsoluteOrRelativeTimeType(rapid.SampledFrom([]string{"PT1H", "PT30M", "P1D", "PT2H3M4S"}).Draw(t, path+".relend"))
+	case 4:
+		// open start, absolute end - in the past or in the future relative to the wall clock; on
+		// the wire it is re-expressed as a (possibly negative) remaining duration
+		off := rapid.SampledFrom([]time.Duration{-3 * 7 * 24 * time.Hour, -time.Hour, -90 * time.Second, 2 * time.Minute, time.Hour, 36 * time.Hour}).Draw(t, path+".absend")
+		tp.EndTime = model.NewAbsoluteOrRelativeTimeTypeFromTime(time.Now().Add(off))
 	}
 	v.Set(reflect.ValueOf(tp))
 }
